@@ -85,7 +85,19 @@ impl TypeSpace {
                             .cloned()
                             .collect()
                     });
+                    // A default of `null` is the default of the Option; the
+                    // inner type has no say about it (and would reject it).
+                    let inner_metadata = match metadata {
+                        Some(m) if m.default == Some(serde_json::Value::Null) => {
+                            Some(Box::new(Metadata {
+                                default: None,
+                                ..m.as_ref().clone()
+                            }))
+                        }
+                        other => other.clone(),
+                    };
                     let ss = Schema::Object(SchemaObject {
+                        metadata: inner_metadata,
                         instance_type: Some(SingleOrVec::from(*other_type)),
                         enum_values,
                         ..schema.clone()
